@@ -58,6 +58,10 @@ def _gen(rng, big=False):
     vars_ = common.VARS[:nv]
     cfg = sg.GenCfg(vars=vars_, ops=common.DENSE_OFFLINE_OPS, max_depth=rng.randint(2, 5 if big else 4), max_bound=rng.choice([4, 8, 12] + ([16] if big else [])),
                     p_reuse=rng.choice([0.0, 0.15]), allow_const_only=rng.random() < 0.25, p_loose=rng.choice([0.08, 0.3]))
+    long_log = rng.random() < 0.01
+    if long_log:
+        cfg.max_depth = min(cfg.max_depth, 2)
+        cfg.ops = set(cfg.ops) - {'exp'}
     ast = sg.gen_formula(rng, cfg)
     used = sg.vars_of(ast)
     if not used:
@@ -66,7 +70,7 @@ def _gen(rng, big=False):
     signals = {}
     fired = {}
     for v in vars_:
-        s, f = world.gen_dense_signal(rng, rng.choice([1, 2, 3, 4, 5, 6, 7] + ([10, 14] if big else [])), start_q=0 if zero else rng.randint(0, 6),
+        s, f = world.gen_dense_signal(rng, (rng.choice([64, 100, 200]) if long_log else rng.choice([1, 2, 3, 4, 5, 6, 7] + ([10, 14] if big else []))), start_q=0 if zero else rng.randint(0, 6),
                                       max_gap_q=rng.choice([2, 4, 8]), resample_p=rng.choice([0.15, 0.4]),
                                       style=rng.choice([None, None, 'ints']))
         signals[v] = s
